@@ -948,10 +948,26 @@ def sum_(a, axis=None):
     if not isinstance(a, SArr):
         raise Unsupported('sum of %r' % type(a))
     if a.nan is not None:
+        if a.ndim == 1 and axis in (None, 0, -1):
+            # IEEE: the sum is NaN iff some term is NaN (value term: the sum of the stored values, meaningful only when not NaN)
+            from .core import SNan
+            q = _qv(1)[0]
+            anyn = z3.Exists([q], z3.And(0 <= q, q < a.shape_e[0], a.nan(q)))
+            plain = SArr(a.shape_e, a.elem, a.kind)
+            for att in ('gather_of', 'off'):
+                if getattr(a, att, None) is not None:
+                    setattr(plain, att, getattr(a, att))
+            return SNan(lift(sum_(plain, axis)), anyn)
         raise Unsupported('sum over possibly-NaN array')
     rk = 'f' if a.kind == 'f' else 'i'
     if axis is not None and axis < 0:
         axis += a.ndim
+    if a.ndim == 1 and axis in (None, 0) and a.kind == 'b' and Ctx.cur is not None:
+        # ASSUMED identity: the number of True entries of a mask is the length of np.where(mask)[0]
+        # (used only where np.where of this mask is a registered function of a key, so that both counts are the same term)
+        pw = _param_where(C(), a, a.shape_e[0], z3.Int('where_canon'))
+        if pw is not None:
+            return wrap(pw.shape_e[0])
     if a.ndim == 1 and axis in (None, 0):
         g = getattr(a, 'gather_of', None)
         if g is not None and getattr(g[1], 'where_of', None) is not None and g[0].ndim == 1:
@@ -1015,6 +1031,21 @@ def mean(a, axis=None):
         tot = lift(a.size)
     else:
         tot = a.shape_e[axis]
+    from .core import SNan as _SNan
+    if isinstance(s, _SNan):
+        c = C()
+        m = c.fresh('mean', R)
+        c.assume(z3.Implies(tot > 0, m * z3.ToReal(tot) == to_real(s.e)), feas=False)
+        if not Ctx.spec and not c.ghost.get('ieee_empty_mean'):
+            c.oblige('mean-of-nonempty', tot > 0, 'safety')
+        return _SNan(m, z3.Or(s.isnan, tot <= 0))
+    if not Ctx.spec and C().ghost.get('ieee_empty_mean') and not isinstance(s, SArr):
+        # numpy semantics made explicit (unit option): the mean of an empty selection is NaN (with a warning), not an exception
+        c = C()
+        m = c.fresh('mean', R)
+        c.assume(z3.Implies(tot > 0, m * z3.ToReal(tot) == to_real(lift(s))), feas=False)
+        from .core import SNan
+        return SNan(m, z3.simplify(tot <= 0))
     if not Ctx.spec:
         C().oblige('mean-of-nonempty', tot > 0, 'safety')
     if isinstance(s, SArr):
@@ -1148,9 +1179,19 @@ def gradient(a, axis=0):
     return SArr(a.shape_e, elem, 'f')
 
 
-def digitize(x, edges):
-    """ASSUMED np.digitize(x, bins) for increasing bins, right=False:
-    result r in [0, m];  r > 0 => bins[r-1] <= x;  r < m => x < bins[r];  NaN => m."""
+def searchsorted(a, v, side='left', sorter=None):
+    """ASSUMED np.searchsorted(a, v, side) for non-decreasing a: 'right' is np.digitize(v, a), 'left' is np.digitize(v, a, right=True)"""
+    if sorter is not None or side not in ('left', 'right'):
+        raise Unsupported('searchsorted sorter / side')
+    return digitize(v, a, right=(side == 'left'))
+
+
+def digitize(x, edges, right=False):
+    """ASSUMED np.digitize(x, bins) for increasing bins:
+    right=False: result r in [0, m];  r > 0 => bins[r-1] <= x;  r < m => x < bins[r];  NaN => m
+    right=True : result r in [0, m];  r > 0 => bins[r-1] <  x;  r < m => x <= bins[r]; NaN => m."""
+    if not isinstance(right, bool):
+        raise Unsupported('digitize right=%r' % (right,))
     e = _arr(edges)
     if e.ndim != 1:
         raise Unsupported('digitize edges')
@@ -1165,7 +1206,7 @@ def digitize(x, edges):
         raise Unsupported('digitize of scalar')
     cix = [z3.Int('dig_canon%d' % d) for d in range(xa.ndim)]
     key = (z3.simplify(xa.elem(*cix)).sexpr(), z3.simplify(e.elem(cix[0])).sexpr(), m.sexpr(), tuple(s_.sexpr() for s_ in xa.shape_e),
-           z3.simplify(xa.nan(*cix)).sexpr() if xa.nan is not None else None)
+           z3.simplify(xa.nan(*cix)).sexpr() if xa.nan is not None else None, right)
     dcache = c.ghost.setdefault('digitize_cache', {})
     if key in dcache:
         D = dcache[key]
@@ -1176,9 +1217,14 @@ def digitize(x, edges):
     rng = z3.And(*[z3.And(0 <= q, q < n) for q, n in zip(ix, xa.shape_e)])
     r = D(*ix)
     xv = to_real(xa.elem(*ix))
-    body = z3.And(0 <= r, r <= m,
-                  z3.Implies(r > 0, to_real(e.elem(r - 1)) <= xv),
-                  z3.Implies(r < m, xv < to_real(e.elem(r))))
+    if right:
+        body = z3.And(0 <= r, r <= m,
+                      z3.Implies(r > 0, to_real(e.elem(r - 1)) < xv),
+                      z3.Implies(r < m, xv <= to_real(e.elem(r))))
+    else:
+        body = z3.And(0 <= r, r <= m,
+                      z3.Implies(r > 0, to_real(e.elem(r - 1)) <= xv),
+                      z3.Implies(r < m, xv < to_real(e.elem(r))))
     if xa.nan is not None:
         body = z3.If(xa.nan(*ix), r == m, body)
     c.assume(z3.ForAll(ix, z3.Implies(rng, body), patterns=[D(*ix)]))
